@@ -18,9 +18,11 @@
 (* of <<db, cache>> (entry ages are relative, so the graph is finite):     *)
 (*   mc   checks the invariants and the step property below on every       *)
 (*        reachable state / transition, with TLC's coverage statistics.    *)
-(*   gen  prints the transitions as labelled edges [s, a, args, out, d]     *)
-(*        (for Check: the edge of the outcome the present implementation   *)
-(*        is expected to choose).  The orchestrator computes walks that    *)
+(*   gen  prints the transitions as labelled edges [s, a, args, out, d];    *)
+(*        here Check takes only the outcome the present implementation is  *)
+(*        predicted to choose (ImplOnly, see "implementation model") and   *)
+(*        the state carries that model.  The orchestrator computes walks   *)
+(*        that                                                             *)
 (*        cover every (state, action) pair, the harness performs them on   *)
 (*        the real hashprefix.Checker, and TraceHashPrefix.tla judges      *)
 (*        every observed (question, verdict) against ALL outcomes the      *)
@@ -42,14 +44,16 @@ EXTENDS Sequences, Naturals, FiniteSets, TLC, Json
 
 CONSTANTS T,          \* entry life time in ticks
           DbIds,      \* ids (DomTab) of the hashes the service may know
-          EmitOn      \* print edges
+          EmitOn,     \* print edges
+          ImplOnly    \* explore only the choices of the implementation model (gen)
 
 VARIABLES db,     \* set of hashes the service knows now
           cache,  \* prefix -> [ttl, hs]
           fdb,    \* ghost: prefix -> what a fresh lookup of that prefix returned
                   \*        when it was last asked (kept while the entry lives)
-          last    \* the last action and what it showed to the outside
-vars == <<db, cache, fdb, last>>
+          last,   \* the last action and what it showed to the outside
+          impl    \* model of what the PRESENT implementation keeps (planning only)
+vars == <<db, cache, fdb, last, impl>>
 
 INSTANCE HashPrefixCore
 
@@ -103,12 +107,42 @@ Names == {
 
 DbU == {HOfId(i) : i \in DbIds}
 
+\* ------------------------------------------------- implementation model
+\* Used ONLY to predict which of the admissible outcomes the present code
+\* will show, so that the planned walks really reach the (state, action)
+\* pairs they are meant to cover.  It is never the oracle: every observed
+\* step is judged against Outcomes, and a wrong prediction merely lowers the
+\* measured coverage.
+\*
+\* `cache' above is the most an implementation may rely on.  The code keeps
+\* less: storeInCache writes the empty (negative) entry for an asked prefix
+\* only when its key-value store has NO entry for the prefix at all, and an
+\* expired entry is never removed from that store -- so once a prefix has
+\* had an entry, later negative answers for it are not remembered and the
+\* prefix is asked again at every check.  (More questions than necessary,
+\* still nothing but prefixes and the same verdicts: admissible.)
+\*   impl.present  prefixes that have some entry, usable or expired, in the
+\*                 implementation's store
+\*   impl.held     prefixes whose usable entry of `cache' the implementation
+\*                 really holds
+ImplUsable(p) == p \in impl.held /\ Valid(cache, p)
+ImplQ(n) ==
+    IF \E k \in RefC(n) : ImplUsable(n.h[k].p) /\ n.h[k] \in cache[n.h[k].p].hs
+    THEN {}
+    ELSE {n.h[k].p : k \in {j \in RefC(n) : ~ImplUsable(n.h[j].p)}}
+ImplStore(Q, rcv) ==
+    [present |-> impl.present \cup Q,
+     held    |-> (impl.held \ Q) \cup {p \in Q : (\E x \in rcv : x.p = p) \/ p \notin impl.present}]
+ImplAdmissible ==
+    \A n \in Names : Admissible(n, RefC(n), cache, db, ImplQ(n))
+
 \* ------------------------------------------------------------------ actions
 EmptyCache == [p \in Prefixes |-> [ttl |-> 0, hs |-> {}]]
 NoLast == [a |-> "init", n |-> <<>>, q |-> {}, v |-> FALSE]
 
 Ids(S) == {x.r : x \in S}
-St(d, c) == [db |-> Ids(d), c |-> [p \in Prefixes |-> <<c[p].ttl, Ids(c[p].hs)>>]]
+St(d, c, i) == [db |-> Ids(d), c |-> [p \in Prefixes |-> <<c[p].ttl, Ids(c[p].hs)>>],
+                i |-> [present |-> i.present, held |-> i.held]]
 Emit(rec) == IF EmitOn THEN PrintT(<<"@@V", ToJson(rec)>>) ELSE TRUE
 
 \* The universe, printed once for the harness (names, collision pattern).
@@ -119,39 +153,40 @@ Init == /\ db \in SUBSET DbU
         /\ cache = EmptyCache
         /\ fdb = [p \in Prefixes |-> {}]
         /\ last = NoLast
+        /\ impl = [present |-> {}, held |-> {}]
 
 Check(n) ==
     \E o \in {[q |-> oc.q, v |-> oc.v] : oc \in Outcomes(n, cache, db)} :
+         /\ ImplOnly => o.q = ImplQ(n) /\ o.v = Hit(n, RefC(n), cache, db, o.q)
          /\ cache' = Store(cache, o.q, Received(db, o.q))
          \* the ghost is kept by the DEFINITION of a fresh lookup, not by Store
          /\ fdb' = [p \in Prefixes |-> IF p \in o.q THEN Fresh(db, p) ELSE fdb[p]]
          /\ last' = [a |-> "check", n |-> n.l, q |-> o.q, v |-> o.v]
+         /\ impl' = IF ImplOnly THEN ImplStore(o.q, Received(db, o.q)) ELSE impl
          /\ UNCHANGED db
-         \* Only the edge of the expected choice is printed: the edges are used
-         \* to PLAN the walks; what the real code shows at each step is judged
-         \* against all of Outcomes by TraceHashPrefix.tla.
-         /\ IF o.q = RefQ(n, cache)
-            THEN Emit([s |-> St(db, cache), a |-> "check", n |-> n.l, q |-> o.q, v |-> o.v,
-                       d |-> St(db', cache')])
-            ELSE TRUE
+         \* The edges are used to PLAN the walks; what the real code shows at
+         \* each step is judged against all of Outcomes by TraceHashPrefix.tla.
+         /\ Emit([s |-> St(db, cache, impl), a |-> "check", n |-> n.l, q |-> o.q, v |-> o.v,
+                  d |-> St(db', cache', impl')])
 
 Tick ==
     /\ cache' = Age(cache, 1)
     /\ fdb' = [p \in Prefixes |-> IF cache'[p].ttl = 0 THEN {} ELSE fdb[p]]
     /\ last' = [NoLast EXCEPT !.a = "tick"]
+    /\ impl' = [impl EXCEPT !.held = {p \in @ : cache'[p].ttl > 0}]
     /\ UNCHANGED db
-    /\ Emit([s |-> St(db, cache), a |-> "tick", d |-> St(db', cache')])
+    /\ Emit([s |-> St(db, cache, impl), a |-> "tick", d |-> St(db', cache', impl')])
 
 DbChange(x) ==
     /\ db' = IF x \in db THEN db \ {x} ELSE db \cup {x}
     /\ last' = [NoLast EXCEPT !.a = "db"]
-    /\ UNCHANGED <<cache, fdb>>
-    /\ Emit([s |-> St(db, cache), a |-> "db", x |-> x.r, d |-> St(db', cache')])
+    /\ UNCHANGED <<cache, fdb, impl>>
+    /\ Emit([s |-> St(db, cache, impl), a |-> "db", x |-> x.r, d |-> St(db', cache', impl')])
 
 Next == (\E n \in Names : Check(n)) \/ Tick \/ (\E x \in DbU : DbChange(x))
 Spec == Init /\ [][Next]_vars
 
-GraphView == <<db, cache, fdb>>
+GraphView == <<db, cache, fdb, impl>>
 
 \* ----------------------------------------------------------------- invariants
 TypeOK ==
